@@ -288,6 +288,10 @@ def lit_specs(tier, seed):
                 yield [form, pre + '${a}' + ('y' if form == 'dq' else ''), em, lrng.randrange(FRAMES)]
             yield [form, pre + '${n:-' + 'd' * (k + 20) + '}', 'unset', lrng.randrange(FRAMES)]
             yield [form, pre + '${%s:-%s}' % ('N' * (k + 1), 'd' * (260 - k if k < 250 else 5)), 'unset', lrng.randrange(FRAMES)]
+    for k in (30, 31, 32, 33, 62, 63, 64, 65, 127, 128, 129, 255, 256, 257, 1000):
+        nm = 'V' * k           # a long variable name that IS set (and whose shorter prefixes are not)
+        for form, body in (('uq', '${%s}' % nm), ('dq', 'a${%s}b' % nm), ('uq', '${%s:-dflt}' % nm), ('dq', '${%s:-dflt}' % nm)):
+            yield [form, body, 'set', lrng.randrange(FRAMES)]
     for k in (1000, 4000, 8190, 16380, 20000):
         yield ['uq', '${n:-' + 'd' * k + '}', 'unset', 0]
         yield ['dq', 'p${n:-' + 'e' * k + '}q', 'unset', 0]
